@@ -419,6 +419,10 @@ const DEFAULT_UID: Uid = [0; UID_SIZE];
 ///
 ///
 pub fn new_uid() -> Uid {
+    #[cfg(feature = "verif")]
+    if let Some(uid) = crate::verif_hooks::uid::next() {
+        return uid;
+    }
     const TIME_BYTES: usize = 6;
     let time = now();
     let time = &time.to_be_bytes()[TIME_BYTES..];
